@@ -270,6 +270,10 @@ def big():
     yield NL(0, [], [('__const1__', ()), ('INV1', ('g0',))], ['g0', 'g1'])      # constants only
     yield NL(1, [('dff', 'i0'), ('latch', 'q0')], [], [])                       # no output port: only state elements capture
     yield NL(2, [], [], ['i1', 'i0'])                                         # ports wired straight through
+    # flip-flop and latch kinds as they occur in netlists: 'dff' / 'latch' anywhere in the kind, any case (scan, set/reset variants)
+    for fk in ('SDFFARX1_RVT', 'sdffar', 'DFFX1', 'AODFFARX2'):
+        yield NL(2, [(fk, 'g0')], [('XOR2', ('i0', 'n0')), ('AND2', ('i1', 'n0'))], ['q0', 'g1'])
+    yield NL(1, [('HLATCHX1', 'i0'), ('SDFFX2', 'q0')], [('NOR2', ('q0', 'n1'))], ['g0', 'q1'])
 
 
 def take_slice(gen, nslices, which):
